@@ -6,6 +6,7 @@ import (
 	"fmt"
 	"math/rand"
 	"net"
+	"os"
 	"runtime"
 	"strings"
 	"sync"
@@ -409,6 +410,7 @@ func runN1Case(r *rec, cfg n1Cfg) {
 		return all, atomic.LoadInt64(&sides[0].nrecv) + atomic.LoadInt64(&sides[1].nrecv)
 	}
 	settled := false
+	shortStall := false
 	lastProgress := time.Now()
 	var lastN int64 = -1
 	stalled := false
@@ -424,11 +426,20 @@ func runN1Case(r *rec, cfg n1Cfg) {
 		if n != lastN {
 			lastN = n
 			lastProgress = time.Now()
+		} else if atomic.LoadInt64(&n1Stalls) >= 3 && time.Since(lastProgress) > 2*time.Second {
+			// the 20 s stall has been established three times in this run already: do not spend
+			// minutes re-establishing it; the run is only counted
+			shortStall = true
+			break
 		} else if time.Since(lastProgress) > 20*time.Second {
 			stalled = true
+			atomic.AddInt64(&n1Stalls, 1)
 			break
 		}
 		time.Sleep(2 * time.Millisecond)
+	}
+	if shortStall {
+		r.Count("n1.runs_stalled_short_window_not_judged", 1)
 	}
 	errRun := anyErr()
 	running := sides[0].mc.IsRunning() && sides[1].mc.IsRunning()
@@ -788,8 +799,14 @@ func hookMaxFor(cp int) int64 {
 	return -1
 }
 
+var n1Stalls int64
+
 func stageN1(c *verdict.Ctx, r *rec) {
 	installRecvingHook()
+	stagePark(c, r) // first: it is fast, and its verdict must not depend on how long the delivery runs take
+	if os.Getenv("VERIF_C17_N1_SKIP_MAIN") != "" {
+		return
+	}
 	n := c.N(100, 1200)
 	idxs := make(chan int, n)
 	for i := 0; i < n; i++ {
@@ -808,7 +825,6 @@ func stageN1(c *verdict.Ctx, r *rec) {
 		}()
 	}
 	wg.Wait()
-	stagePark(c, r)
 	r.Count("n1.recving_hook_hits", atomic.LoadInt64(&hookHits))
 	r.Max("n1.max_recving_permille_of_capacity", atomic.LoadInt64(&hookMaxRatio))
 	hookOverMu.Lock()
